@@ -1315,7 +1315,8 @@ class Bpsec(AbstractApplication):
         failure = []
 
         confidential_blocks = ctr.block_type(BlockConfidentialityBlock)
-        for bcb in confidential_blocks:
+        # verification can remove an accepted block from the container (and from this list)
+        for bcb in list(confidential_blocks):
             LOGGER.debug('Verifying BCB in %d with context %s, targets %s',
                          bcb.block_num, bcb.payload.context_id, bcb.payload.targets)
 
@@ -1352,7 +1353,8 @@ class Bpsec(AbstractApplication):
         failure = []
 
         integ_blocks = ctr.block_type(BlockIntegrityBlock)
-        for bib in integ_blocks:
+        # verification can remove an accepted block from the container (and from this list)
+        for bib in list(integ_blocks):
             LOGGER.debug('Verifying BIB in %d with context %s, targets %s',
                          bib.block_num, bib.payload.context_id, bib.payload.targets)
 
